@@ -27,6 +27,8 @@ class Exact(Suite):
         prs = gen.all_partial_rankings([0, 1, 2])
         for _ in range(40 if tier == "quick" else 500):
             cases.append({"s": opt_scheme(rng), "D": [rng.choice(prs) or [[0]], rng.choice(prs), rng.choice(prs)]})
+        for _ in range(70 if tier == "quick" else 900):
+            cases.append({"s": p_scheme(rng), "D": cyclic_dataset(rng, 5 if tier == "quick" else 6)})
         for _ in range(50 if tier == "quick" else 700):
             cases.append({"s": rng.choice([gen.UNIFYING, gen.UNIFYING, gen.EXTENDED, gen.UNIFYING_HALF, gen.GENERIC]),
                           "D": sparse_component_dataset(rng, 5 if tier == "quick" else 7)})
